@@ -55,6 +55,17 @@ def mk_bdd(order, extra=()):
     return b
 
 
+def mk_bdd_reordered(level_order, rng):
+    """Declare in a random order, then reorder to `level_order`: the `vars`
+    dict then lists the variables in an order different from their levels."""
+    decl = list(level_order)
+    rng.shuffle(decl)
+    b = mk_bdd(decl)
+    if decl != list(level_order):
+        _bdd.reorder(b, {nm: i for i, nm in enumerate(level_order)})
+    return b
+
+
 def rand_funcs(b, names, rng, k, hold=True):
     """k random functions over `names` built with apply/var; returns refs."""
     out = []
@@ -227,7 +238,7 @@ def c12_trace(tid, rng, work, fps):
     events = []
     # ---------- pickle through dd.bdd ----------
     for case in range(3):
-        src = mk_bdd(src_order)
+        src = mk_bdd(src_order) if rng.random() < 0.5 else mk_bdd_reordered(src_order, rng)
         k = rng.randint(1, 4)
         funcs = rand_funcs(src, base, rng, k)
         src_ext = ext_of(funcs)
@@ -243,7 +254,7 @@ def c12_trace(tid, rng, work, fps):
         elif target == 'fresh':
             dst = _bdd.BDD()
         elif target == 'declared_same':
-            dst = mk_bdd(src_order)
+            dst = mk_bdd(src_order) if rng.random() < 0.5 else mk_bdd_reordered(src_order, rng)
         elif target == 'declared_other':
             o = list(src_order)
             while o == src_order and n > 1:
